@@ -109,6 +109,13 @@ def worker(payload):
 
     hyp_search(body, case_strategy(backend), max_examples=n, seed=seed, stats=stats, deadline=deadline, key_fn=case_key, shrink_budget=60)
 
+    # a focused batch of its own (own seed, so the main search draws what it always drew): productions the weighted grammar reaches only now and
+    # then - aggregates / First over three-loop flattenings, two-argument methods - taken whenever the query at hand allows them
+    import dataclasses
+
+    hyp_search(body, case_strategy(backend, dataclasses.replace(features(), focus=("flat3", "mix"))), max_examples=max(1, n // 4), seed=derive_seed(seed, "focus"),
+               stats=stats, deadline=deadline, key_fn=case_key, shrink_budget=60)
+
     # one long job per shard: every input event is processed, however many there are
     from vf.gen.query import dataset_text
     from vf.model.events import events_strategy
